@@ -230,6 +230,10 @@ func newNodeAttributes(attrs []html.Attribute) nodeAttributes {
 func (na nodeAttributes) viewBox() (*Rectangle, error) {
 	if attrValue := na["viewBox"]; attrValue != "" {
 		v, err := parseViewbox(attrValue)
+		if err == nil && (v.Width < 0 || v.Height < 0) {
+			// a negative size invalidates the attribute
+			return nil, nil
+		}
 		return &v, err
 	}
 	return nil, nil
